@@ -11,6 +11,7 @@ Definition E_WEIRD         : Z := 62.  (* ValueError: Weird! ... chunks have fro
 Definition E_INCONSISTENT  : Z := 63.  (* ValueError: inconsistent time ranges of inputs *)
 Definition E_LOAD_NO_SUBRUNS : Z := 64. (* ValueError: Superrun ... has no subruns information *)
 Definition E_NO_CHUNKS     : Z := 65.  (* DataCorrupted: No data returned / ValueError: it has no chunks *)
+Definition E_LEFTOVER      : Z := 66.  (* RuntimeError: Plugin terminated with leftover *)
 
 (* ---------------------------------------------------------------------------------------------
    generic stable insertion sort by an integer key (python sorted / numpy mergesort argsort)
@@ -160,7 +161,9 @@ Fixpoint iter_loop (allow : bool) (prun : Z) (lv : level) (buffer : achunk) (inp
   do '(inp, rest) <- asplit buffer (cend (abase buffer)) true;
   do out <- do_compute prun lv inp [];
   match inputs with
-  | [] => Ok [out]
+  | [] =>
+      (* IterDone: "Plugin terminated with leftover" when the input buffer still holds rows *)
+      match crows (abase rest) with [] => Ok [out] | _ => Err E_LEFTOVER end
   | c :: more =>
       do buffer' <- aconcatenate [Some rest; Some c] allow;
       do outs <- iter_loop allow prun lv buffer' more;
